@@ -21,7 +21,7 @@ CFG = dict(
         "clauses in order as further locals, raw values "
         "of globals); it is tied to the code by the `mprog` stream: generated programs of the fragment run definition "
         "by definition on the real interpreter, raw value of every new global compared bit for bit",
-        "the inference of polymorphic types, structs and the list functions other than head/tail/cons/len are outside "
+        "the inference of polymorphic types and the list functions other than head/tail/cons/len are outside "
         "the Lean model; for them "
         "the claim rests on the implementation oracle (raw value of every global vs reported static type) over generated programs",
     ],
@@ -52,22 +52,23 @@ CLAIM = dict(
          "program_soundness_closed / program_no_incompatible — for every sequence of `let` and `fn` definitions typed "
          "by ProgOK (expressions as in (1) plus earlier globals, parameters, conversions `a -> unit expression`, the "
          "six comparisons, && || !, boolean literals, if-then-else, and calls of first-order — possibly recursive, "
-         "possibly generic — user functions with `where` clauses, and lists (literals, `head`, `tail`, `cons`, `len`; "
-         "so recursive list functions such as `sum` are in the fragment); polymorphic globals and generic "
+         "possibly generic — user functions with `where` clauses, lists (literals, `head`, `tail`, `cons`, `len`; "
+         "so recursive list functions such as `sum` are in the fragment) and structs (literals with the compiler's "
+         "evaluation order, field access); polymorphic globals and generic "
          "signatures are sets of instances), running it with the model of the compiler+VM (evalP/runProg, any fuel) from a session that "
          "satisfies the invariant ends in a session in which every global agrees with its static type and every "
          "function is checked, or fails with a division by zero or `head`/`tail` of an empty list (or the model's fuel "
          "runs out); never with a unit "
          "incompatibility, never with an operand of the wrong kind. The model is tied to the code by the `mprog` "
          "stream (bit-exact raw values of all globals of generated programs of the fragment). The rest of the "
-         "property (the inference of generic signatures, structs, the other list functions, unit and dimension "
+         "property (the inference of generic signatures, the other list functions, unit and dimension "
          "definitions) is checked on the real interpreter: generated type-directed programs, the raw value of every "
          "global — recursively through struct fields and list elements — against the static type the checker "
          "reports, and the kind of every run-time failure.",
     design_ref="DESIGN.md section 5 C01",
     note="Partial: the theorems cover the program fragment (incl. generic functions and polymorphic lets, as instance "
-         "sets, where-clauses and lists) over exact arithmetic; structs and the other list functions are "
-         "exploration-level (implementation oracle over generated programs). Proving the conversion rule and "
+         "sets, where-clauses, lists and structs) over exact arithmetic; the other list functions, strings and "
+         "date-times are exploration-level (implementation oracle over generated programs). Proving the conversion rule and "
          "running the fragment on the interpreter exposed two more genuine defects (C01-convert-to-zero: `1 m -> 0`; "
          "C01-zero-nonfinite: a polymorphic zero times NaN), recorded as known findings next to the composite "
          "non-integer exponents and the polymorphic inf/NaN; the zero-on-the-left comparison defect was repaired.",
